@@ -59,7 +59,7 @@ def role_from_spec(spec, var, ctype, pname, classes, more_ctypes=()):
         if mode in ("NEW", "REF"):
             return Role("Obj<%s > %s(R, %s, %s%s);" % (cpp, var, q, mode, extra), "(%s)%s.pp()" % (ctype, var), "%s.t()" % var)
         return Role("Obj<%s > %s(R, %s, %s%s);" % (cpp, var, q, mode, extra), "(%s)%s.p()" % (ctype, var), "%s.t()" % var)
-    m = re.match(r"Obj<(.*)>:(\w+)(?::(\d+))?$", spec)
+    m = re.match(r"Obj<(.*)>:(\w+)(?::(\d+))?(?::(\d+))?$", spec)
     if m:
         extra = ""
         if m.group(2) == "NEW":
@@ -67,6 +67,8 @@ def role_from_spec(spec, var, ctype, pname, classes, more_ctypes=()):
             extra = ", (DelFn)ppl_delete_%s" % cls
         if m.group(3):
             extra = (extra or ", 0") + ", " + m.group(3)
+        if m.group(4):
+            extra += ", " + m.group(4)
         return obj(m.group(1), m.group(2), extra)
     if spec in ("Dim", "DimSmall"):
         return Role("%s %s(R, %s);" % (spec, var, q), "(%s)%s.v" % (ctype, var), "((size_t)%s.v)" % var)
@@ -138,7 +140,7 @@ def infer_role(ctype, pname, nxt, var, classes):
         if not cpp:
             return None
         if cpp == "Coefficient":
-            return "Obj<Coefficient>:MUT:1"
+            return "Obj<Coefficient>:MUT:1:1"      # out coefficient: pre-loaded with the non-trivial menu entry 2
         return "Obj<%s>:MUT" % cpp
     m = re.match(r"^ppl_const_(\w+)_t\*$", t)
     if m:
@@ -203,11 +205,11 @@ DOMAIN_RULES = [
     "return $0.%(M)s();"),
   R("ppl_@CLASS@_bounds_from_@ABOVEBELOW@", r"ppl_{D}_(?P<M>bounds_from_above|bounds_from_below)", BOOL, "return $0.%(M)s($1);"),
   R("ppl_@CLASS@_@MAXMIN@", r"ppl_{D}_(?P<M>maximize|minimize)", BOOL,
-    "bool opt = false; bool ok = $0.%(M)s($1, $2, $3, opt); if (ok) $4 = opt ? 1 : 0; else #4.checked = false; return ok;"),
+    "bool opt = false; bool ok = $0.%(M)s($1, $2, $3, opt); if (ok) $4 = opt ? 1 : 0; return ok;"),
   R("ppl_@CLASS@_@MAXMIN@_with_point", r"ppl_{D}_(?P<M>maximize|minimize)_with_point", BOOL,
-    "bool opt = false; bool ok = $0.%(M)s($1, $2, $3, opt, $5); if (ok) $4 = opt ? 1 : 0; else #4.checked = false; return ok;", {5: "Obj<Generator>:MUT:2"}),
+    "bool opt = false; bool ok = $0.%(M)s($1, $2, $3, opt, $5); if (ok) $4 = opt ? 1 : 0; return ok;", {5: "Obj<Generator>:MUT:2"}),
   R("ppl_@CLASS@_has_@UPPERLOWER@_bound", r"ppl_{D}_(?P<M>has_upper_bound|has_lower_bound)", BOOL,
-    "bool cl = false; bool ok = $0.%(M)s(Variable($1), $2, $3, cl); if (ok) $4 = cl ? 1 : 0; else #4.checked = false; return ok;"),
+    "bool cl = false; bool ok = $0.%(M)s(Variable($1), $2, $3, cl); if (ok) $4 = cl ? 1 : 0; return ok;"),
   R("ppl_@CLASS@_frequency", r"ppl_{D}_frequency", BOOL, "return $0.frequency($1, $2, $3, $4, $5);"),
   R("ppl_@CLASS@_@COMPARISON@_@CLASS@", r"ppl_{D}_(?P<M>contains|strictly_contains|is_disjoint_from|geometrically_covers|geometrically_equals)_{D}", BOOL,
     "return $0.%(M)s($1);"),
